@@ -10,22 +10,12 @@ from __future__ import annotations
 from common import canon, exn_tag
 
 _cache = {}
-_GenCls = None
 
 
 def make_generator(p, a, b, basis, n, entropy: int):
-    """Generator(p, a, b, basis, n, entropy_f=...) through the real __init__.  Generator.__new__ does not accept the
-    documented sixth argument `entropy_f` (TypeError), so a subclass whose __new__ takes it is used; nothing else
-    is overridden."""
-    global _GenCls
-    if _GenCls is None:
-        from pycoin.ecdsa.Generator import Generator
-
-        class _GeneratorWithEntropy(Generator):
-            def __new__(cls, p, a, b, basis, order, entropy_f=None):
-                return tuple.__new__(cls, basis)
-        _GenCls = _GeneratorWithEntropy
-    return _GenCls(p, a, b, basis, n, entropy_f=entropy_f_for(entropy))
+    """Generator(p, a, b, basis, n, entropy_f=...) through the public constructor"""
+    from pycoin.ecdsa.Generator import Generator
+    return Generator(p, a, b, basis, n, entropy_f=entropy_f_for(entropy))
 
 
 def entropy_f_for(entropy: int):
